@@ -235,6 +235,20 @@ template <class Mesh> void HistRun<Mesh>::op_roundtrip(R &r, const Op &q) {
             unlink(path.c_str());
             if (gh != allhex || gt != alltet) ctx.fail(OW, "typedetect", "ASCII isHexahedralMesh=" + std::to_string(gh) + " isTetrahedralMesh=" + std::to_string(gt) + " model hex=" + std::to_string(allhex) + " tet=" + std::to_string(alltet));
         }
+        // through a real file: FileManager::writeFile + IO::read_file (dispatch on the file ending)
+        if (rng.chance(0.3)) {
+            std::string path = g_scratch_dir + "/rtp_" + std::to_string(getpid()) + ".ovm";
+            IO::FileManager fm; fm.setVerbosityLevel(0);
+            if (!fm.writeFile(path, *r.mesh)) { unlink(path.c_str()); ctx.fail(OW, "ascii-write-failed", "writeFile(path) on a healthy file system"); }
+            Mesh dst; bool okr = false; std::string ex;
+            try { okr = IO::read_file(path, dst, tc, bu); } catch (const std::exception &e) { ex = e.what(); }
+            unlink(path.c_str());
+            if (!okr) ctx.fail(OW, "ascii-read-failed", "IO::read_file(.ovm) " + ex);
+            std::string d = compare_loaded(dst, r, true, KID == 2 && tc);
+            if (!d.empty()) ctx.fail(OW, "ascii-" + d.substr(0, d.find(':')), "IO::read_file(.ovm) " + d);
+            if (dst.has_vertex_bottom_up_incidences() != bu) ctx.fail(OW, "ascii-options", "read_file: bottom_up_incidences argument not honoured");
+            st.add("probe_roundtrip_read_file_ovm");
+        }
         st.add("probe_roundtrip_ascii");
         st.nt(fnv1a(img));
         return;
@@ -265,6 +279,21 @@ template <class Mesh> void HistRun<Mesh>::op_roundtrip(R &r, const Op &q) {
     { PolyMesh p; load_and_compare(img, p, ro, "into polyhedral", "ovmb-read-failed"); }
     if (KID == 0 && tt == 1) { TetMesh t; load_and_compare(img, t, ro, "into tetrahedral", "ovmb-read-failed"); st.add("probe_cross_type_read"); }
     if (KID == 0 && tt == 2 && !ro.topology_check) { HexMesh h; load_and_compare(img, h, ro, "into hexahedral", "ovmb-read-failed"); st.add("probe_cross_type_read"); }
+    if (rng.chance(0.25)) {   // through a real file: ovmb_write(path) + IO::read_file (dispatch on the file ending)
+        std::string path = g_scratch_dir + "/rtp_" + std::to_string(getpid()) + ".ovmb";
+        IO::WriteResult w2 = IO::ovmb_write(std::filesystem::path(path), *r.mesh);
+        if (w2 != IO::WriteResult::Ok) { unlink(path.c_str()); ctx.fail(OW, "ovmb-write-failed", "ovmb_write(path) " + std::string(IO::to_string(w2))); }
+        std::string onDisk; { std::ifstream f(path, std::ios::binary); std::ostringstream o; o << f.rdbuf(); onDisk = o.str(); }
+        Mesh dst; bool okr = false; std::string ex;
+        try { okr = IO::read_file(path, dst, ro.topology_check, ro.bottom_up_incidences); } catch (const std::exception &e) { ex = e.what(); }
+        unlink(path.c_str());
+        { IFile d2 = ovmb_decode(onDisk); std::string dd = compare_decoded(d2, r); if (!dd.empty()) ctx.fail(OW, "decoder-disagrees", "bytes written by ovmb_write(path) do not decode to the mesh: " + dd); }
+        if (!okr) ctx.fail(OW, "ovmb-read-failed", "IO::read_file(.ovmb) " + ex);
+        std::string d = compare_loaded(dst, r, false, KID == 2 && ro.topology_check);
+        if (!d.empty()) ctx.fail(OW, "ovmb-" + d.substr(0, d.find(':')), "IO::read_file(.ovmb) " + d);
+        if (dst.has_vertex_bottom_up_incidences() != ro.bottom_up_incidences) ctx.fail(OW, "ovmb-options", "read_file: bottom_up_incidences argument not honoured");
+        st.add("probe_roundtrip_read_file_ovmb");
+    }
     // every other legal encoding reads to the same mesh
     for (int k = 0; k < 3; ++k) {
         Rng er((uint64_t)q.a[3] * 13 + k);
